@@ -30,6 +30,7 @@ type NetConfig struct {
 	PollMode       int           // how ServeMessages is served: 0 netpoll fallback (real netServer), 1 epoll model
 	PollWorkers    int           // epoll model: concurrent serve invocations per connection
 	SilentPipe     bool          // writes after a cut succeed silently instead of failing with EPIPE
+	LateWriteErr   int           // ‰: a write delivers its bytes and then reports an error (the connection stays usable)
 }
 
 // Fault kinds counted when they actually fire.
@@ -633,6 +634,10 @@ func (e *End) Write(b []byte) (int, error) {
 		rest = rest[k:]
 	}
 	s.rq.WakeAll()
+	if !cutNow && n.Cfg.LateWriteErr > 0 && simrt.Chance(n.Cfg.LateWriteErr) {
+		n.fault(FWriteErr + "-after-delivery")
+		return len(b), errPipe
+	}
 	if cutNow {
 		kind := s.cutKind
 		s.cutAt = -1
